@@ -196,6 +196,7 @@ WIRING = {  # documented wiring of the device-provided IEEE4882 methods
     "scpi_contrib::ieee488::IEEE4882::cls": SD + "scpi_cls",
     "scpi_contrib::ieee488::IEEE4882::opc": SD + "scpi_opc",
     "scpi_contrib::ieee488::IEEE4882::stb": SD + "scpi_stb",
+    "scpi::Device::handle_error": SD + "push_error",
 }
 
 
